@@ -200,7 +200,7 @@ func c14Expiry(c *vk.Ctx, r *rand.Rand) bool {
 	natTimeout := time.Duration(400+r.Intn(800)) * time.Millisecond
 	w := newC14World(c, r, natTimeout)
 	defer w.close()
-	nClients := c.N(6, 14)
+	nClients := c.N(7, 14) // two phases per batch in the quick tier: 14 clients >= the 13 scenarios handed out in turn
 	type cres struct{ ok bool }
 	results := make(chan bool, nClients)
 	for ci := 0; ci < nClients; ci++ {
@@ -217,7 +217,7 @@ func c14Expiry(c *vk.Ctx, r *rand.Rand) bool {
 			if cr.Intn(2) == 0 {
 				dns53 = w.dns53b
 			}
-			scen := pickSeq(&c14ScenSeq, []string{"non-dns-burst-then-idle", "single-non-dns", "dns-then-non-dns", "fast-close", "no-fast-close/reply-from-other-port-first", "no-fast-close/two-queries", "no-fast-close/non-dns-first", "dns-reply-races-second-datagram", "first-write-fails", "reply-write-to-client-fails", "chatty-target-silent-client", "datagram-in-the-reaping-window"})
+			scen := pickSeq(&c14ScenSeq, []string{"non-dns-burst-then-idle", "single-non-dns", "dns-then-non-dns", "fast-close", "no-fast-close/reply-from-other-port-first", "no-fast-close/two-queries", "no-fast-close/non-dns-first", "dns-reply-races-second-datagram", "first-write-fails", "reply-write-to-client-fails", "chatty-target-silent-client", "datagram-in-the-reaping-window", "empty-payload-opens-the-association"})
 			c.Progress("C14 expiry client=%d scenario=%s timeout=%s", ci, scen, natTimeout)
 			var sends []c14Send
 			var sock *NatSock
@@ -310,6 +310,37 @@ func c14Expiry(c *vk.Ctx, r *rand.Rand) bool {
 				c.Count("reaping_window_scenarios", 1)
 				results <- true
 				return
+			case "empty-payload-opens-the-association":
+				// the association is opened by a datagram with an EMPTY payload (address header only): it is
+				// a client datagram like any other - forwarded (zero bytes), deadline armed, reclaimed after it.
+				// A target of its own tells this datagram (which can carry no id) from everybody else's.
+				et, err := startUDPTarget("empty-sink", net.IPv4(45, 68, byte(c.Batch), byte(150+ci)).To4(), 7005)
+				if err != nil {
+					c.Inconclusive("empty-payload scenario: " + err.Error())
+					results <- true
+					return
+				}
+				defer et.Stop()
+				st := c14Send{T: time.Now()}
+				cl.Send(ssUDP(cl.Key, randBytes(cr, cl.Key.Codec().C.SaltSize), et.addr(), nil), w.rig.Addr4())
+				if !et.WaitCount(1, udpB) {
+					c.Violation("C14/valid-datagram-not-forwarded", map[string]any{"client": cl.Addr.String(), "payload": "empty (address header only), first datagram of the association"})
+					results <- false
+					return
+				}
+				if g := et.Snap()[0]; len(g.Data) == 0 {
+					_, p, _ := net.SplitHostPort(g.From)
+					var port int
+					fmt.Sscan(p, &port)
+					sock = w.rig.Nat.ByPort(port)
+				}
+				if sock == nil {
+					c.Inconclusive("empty-payload scenario: the association's socket could not be identified")
+					results <- true
+					return
+				}
+				sends = append(sends, st)
+				c.Count("associations_opened_by_an_empty_datagram", 1)
 			case "chatty-target-silent-client":
 				// the client says one thing and goes silent; the target (and a third party) keep sending
 				// to the association's address for two timeouts. Only client datagrams keep an association.
@@ -719,7 +750,7 @@ func init() {
 		Parallel:    func(t string) int { return 4 },
 		Timeout:     func(t string) time.Duration { return 25 * time.Minute },
 		Run: func(c *vk.Ctx) {
-			for _, s := range []string{"deadlines_checked", "expired_reclaimed_exactly_once", "fast_close_reclaimed", "dns_associations_kept", "shutdown_with_live_associations", "long_timeout_sequences", "leak_audits_passed", "process_configured_timeout_honoured_services", "process_configured_timeout_honoured_legacy-keys", "chatty_target_scenarios", "reaping_window_scenarios"} {
+			for _, s := range []string{"deadlines_checked", "expired_reclaimed_exactly_once", "fast_close_reclaimed", "dns_associations_kept", "shutdown_with_live_associations", "long_timeout_sequences", "leak_audits_passed", "process_configured_timeout_honoured_services", "process_configured_timeout_honoured_legacy-keys", "chatty_target_scenarios", "reaping_window_scenarios", "associations_opened_by_an_empty_datagram"} {
 				c.Require(s)
 			}
 			c14Run(c)
